@@ -6,7 +6,7 @@
    so they accept every valid value).  The statement "every valid document is accepted" for whole
    schemas (C02_full below) is decided on the implementation by the correspondence run together with
    the reference semantics Spec/Valid.v; its general proof over all schemas is not done (partial). *)
-From GJS Require Import Base Regex Schema GoType Gen Exec Valid ExecP GenP CoreP MethodP LevelP.
+From GJS Require Import Base Regex Schema GoType Gen Exec Valid ExecP GenP CoreP MethodP LevelP NestedP.
 
 Definition C02_full : Prop :=
   forall fmt_ok idf cf defs root name p t j,
@@ -82,6 +82,29 @@ Theorem C02_scalar_objects_exact : forall idf cf defs fmt_ok env sdefs f fd fv s
   is_ok (dec fmt_ok env (S (S (S fd))) t (JObj kv)) = valid fmt_ok sdefs (S (S fv)) s (JObj kv).
 Proof. exact scalar_object_exact. Qed.
 Print Assumptions C02_scalar_objects_exact.
+
+(* ... and through every depth: objects whose properties are such scalars or, recursively, such objects again, nested n levels deep
+   ([sobj n]); documents without nulls, with ASCII strings, integer literals inside Go's int and distinct keys at every level ([dok n]).
+   By induction on n over C02_level_exact: the check attached to an object-valued property is the nested struct's own method. *)
+Theorem C02_nested_objects_exact : forall idf cf defs fmt_ok env sdefs,
+  g_minsized cf = false -> g_only_models cf = false ->
+  forall n a b c self sub s scope t bb kv,
+  scope <> [] -> sobj idf n s -> dok idf n s kv ->
+  gen idf cf defs (fuelG n a) MDeclared self sub s scope = Done (t, bb) ->
+  is_ok (dec fmt_ok env (fuelD n b) t (JObj kv)) = valid fmt_ok sdefs (fuelV n c) s (JObj kv).
+Proof. exact nested_object_exact. Qed.
+Print Assumptions C02_nested_objects_exact.
+
+(* non-vacuity: {o: {a: string minLength 2 (required), b: string maxLength 3}, b: string maxLength 3; o required}; one valid document and
+   one whose nested string is too short - the theorem applies to both, and the model computes the same verdicts *)
+Theorem C02_nested_inhabited :
+  exists t b, gen (fun s => s) (mkCfg false false) [] (fuelG 1 0) MDeclared None false ex_outer [82]%N = Done (t, b) /\
+    is_ok (dec (fun _ _ => true) [] (fuelD 1 0) t (JObj ex_outer_doc)) = valid (fun _ _ => true) [] (fuelV 1 0) ex_outer (JObj ex_outer_doc) /\
+    valid (fun _ _ => true) [] (fuelV 1 0) ex_outer (JObj ex_outer_doc) = true /\
+    is_ok (dec (fun _ _ => true) [] (fuelD 1 0) t (JObj ex_outer_bad)) = valid (fun _ _ => true) [] (fuelV 1 0) ex_outer (JObj ex_outer_bad) /\
+    valid (fun _ _ => true) [] (fuelV 1 0) ex_outer (JObj ex_outer_bad) = false.
+Proof. exact nested_inhabited. Qed.
+Print Assumptions C02_nested_inhabited.
 
 Theorem C02_string : forall fmt_ok env f s, dec fmt_ok env (S f) TString (JStr s) = Ok (GS s).
 Proof. exact dec_string_lossless. Qed.
